@@ -231,6 +231,8 @@ def random_nfa(Sigma: Set[Symbol], n: int) -> NFA:
 def nfa_repetition(N: NFA, id_generator: IdentifierGenerator = IdentifierGenerator()) -> NFA:
     Sigma = N.Sigma
     q0 = State(id_generator.generate('q'))
+    while q0 in N.Q:
+        q0 = State(id_generator.generate('q'))
     Q = N.Q | {q0}
     F = N.F | {q0}
     delta = defaultdict(lambda: set([]))
@@ -245,6 +247,8 @@ def nfa_union(N1: NFA, N2: NFA, id_generator: IdentifierGenerator = IdentifierGe
     assert N1.Q.isdisjoint(N2.Q)
     Sigma = N1.Sigma | N2.Sigma
     q0 = State(id_generator.generate('q'))
+    while q0 in N1.Q or q0 in N2.Q:
+        q0 = State(id_generator.generate('q'))
     Q = N1.Q | N2.Q | {q0}
     F = N1.F | N2.F
     delta = defaultdict(lambda: set([]))
